@@ -287,12 +287,12 @@ def _from_wire_hist(case, raw):
     if not (isinstance(raw, list) and len(raw) == 2 and isinstance(raw[0], list) and len(raw[0]) == 2):
         return {'model': ['MODEL-BAD', raw], 'spec': None}
     (st, calls), specs = raw
-    if st != 0:
-        _last['spec'] = None
-        return {'model': ['unsupported', [st]], 'spec': None}
-    model = [[u, [_canon_dict(own[0])] if own else []] for u, own in calls]
-    sp = ['hist', [_spec_one(x) or [] for x in specs]]
+    # the model may decline (unsupported pattern, facts drift); the specification is kept all the same
+    sp = ['hist', [_spec_one(x) or [] for x in specs]] if specs else None
     _last['spec'] = sp
+    if st != 0:
+        return {'model': ['unsupported', [st]], 'spec': sp}
+    model = [[u, [_canon_dict(own[0])] if own else []] for u, own in calls]
     return {'model': model, 'spec': sp}
 
 
@@ -300,12 +300,11 @@ def _from_wire_req(case, raw):
     if not (isinstance(raw, list) and len(raw) == 2 and isinstance(raw[0], list) and len(raw[0]) == 2):
         return {'model': ['MODEL-BAD', raw], 'spec': None}
     (sts, outs), specs = raw
-    if any(x != 0 for x in sts):
-        _last['spec'] = None
-        return {'model': ['unsupported', sts], 'spec': None}
-    model = [[u, p, _canon_back(back)] for u, p, back in outs]
     sp = ['req', [_spec_one(x) or [] for x in specs]]
     _last['spec'] = sp
+    if any(x != 0 for x in sts):
+        return {'model': ['unsupported', sts], 'spec': sp}
+    model = [[u, p, _canon_back(back)] for u, p, back in outs]
     return {'model': model, 'spec': sp}
 
 
@@ -367,14 +366,35 @@ def _dict_obs(match):
     return sorted(out)
 
 
+def _consume(d):
+    """what the code of an earlier request may do with ITS OWN match dictionary (views pop entries, predicates convert
+    segments to int as in the Pyramid docs): a later request must not see any of it"""
+    for k in list(d):
+        d.pop(k)
+        d['seen_' + str(k)] = 'x'
+    d['consumed'] = 'x'
+
+
+def _clear_caches():
+    # every case starts from empty caches (functools' cache_clear on the lru_cached helpers, the module-level
+    # _segment_cache dict): the history of a case is what the case itself does
+    for m in _impl['mods']:
+        for v in list(vars(m).values()):
+            if callable(getattr(v, 'cache_clear', None)) and hasattr(v, 'cache_info'):
+                v.cache_clear()
+    _impl['mods'][1]._segment_cache.clear()
+
+
 def _app(case):
-    key = json.dumps(case['routes'])
-    ent = _impl['apps'].get(key)
+    # a fresh application (freshly compiled routes) per case: whatever a compiled route or a mapper keeps between
+    # calls belongs to the history of THIS case, so that every replay is self-contained
+    ent = None
     if ent is None:
         Response = _impl['Response']
 
         def view(request):
             body = json.dumps({'name': request.matched_route.name, 'match': _dict_obs(request.matchdict)})
+            _consume(request.matchdict)
             return Response(body=body.encode('utf-8'), content_type='application/json')
 
         def notfound(request):
@@ -389,9 +409,7 @@ def _app(case):
             cfg.add_view(view, route_name=n)
         cfg.add_notfound_view(notfound)
         app = cfg.make_wsgi_app()
-        if len(_impl['apps']) > 400:
-            _impl['apps'].clear()
-        ent = _impl['apps'][key] = (cfg, app)
+        ent = (cfg, app)
     return ent
 
 
@@ -434,6 +452,7 @@ def _route_back(case, cfg, app, url):
             m = route.match(path)
             if m is not None:
                 own = [_dict_obs(m)]
+                _consume(m)
         except UnicodeDecodeError:
             pass
     return [out, own]
@@ -447,8 +466,6 @@ def _run_hist(case):
                'REQUEST_METHOD': 'GET', 'QUERY_STRING': ''}
     req = _impl['Request'](environ)
     req.registry = cfg.registry
-    # the history is the case: start from an empty segment cache (the module-level dict of pyramid.traversal)
-    _impl['mods'][1]._segment_cache.clear()
     route = cfg.get_routes_mapper().get_route(name)
     out = []
     for kw in case['calls']:
@@ -460,6 +477,7 @@ def _run_hist(case):
                 m = route.match(path)
                 if m is not None:
                     own = [_dict_obs(m)]
+                    _consume(m)
             except UnicodeDecodeError:
                 pass
         out.append([u, own])
@@ -507,6 +525,7 @@ def _run_req(case):
 def run_impl(case):
     if not _impl:
         setup('quick')
+    _clear_caches()          # before the routes are compiled: the case is its own history
     if case.get('kind') == 'hist':
         return _run_hist(case)
     if case.get('kind') == 'req':
@@ -520,10 +539,6 @@ def run_impl(case):
         environ['HTTP_HOST'] = e['http_host']
     req = _impl['Request'](environ)
     req.registry = cfg.registry
-    for m in _impl['mods']:
-        for v in list(vars(m).values()):
-            if callable(getattr(v, 'cache_clear', None)) and hasattr(v, 'cache_info'):
-                v.cache_clear()
     els = [P17._py_pval(x) for x in case['elements']]
 
     def args():
@@ -570,7 +585,8 @@ def expected_authority(e):
 
 def _judge_hist(case, obs, spec):
     from urllib.parse import unquote_to_bytes
-    if spec is None or spec[0] != 'hist' or not isinstance(obs, list) or len(obs) != len(spec[1]):
+    if spec is None or spec[0] != 'hist' or not isinstance(obs, list) or len(obs) != len(spec[1]) \
+            or not all(isinstance(o, list) and len(o) == 2 for o in obs):
         return None, 'not specified'
     said = None
     for i, ((u, own), sp) in enumerate(zip(obs, spec[1])):
@@ -599,7 +615,8 @@ def judge(case, obs, spec):
     if case.get('kind') == 'hist':
         return _judge_hist(case, obs, spec)
     if case.get('kind') == 'req':
-        if spec is None or spec[0] != 'req' or not isinstance(obs, list) or len(obs) != len(spec[1]):
+        if spec is None or spec[0] != 'req' or not isinstance(obs, list) or len(obs) != len(spec[1]) \
+                or not all(isinstance(o, list) and len(o) == 3 for o in obs):
             return None, 'not specified'
         said = None
         for i, (o, sp, script) in enumerate(zip(obs, spec[1], scripts_at(case))):
